@@ -5,6 +5,7 @@ import json
 
 from hypothesis import strategies as st
 
+from vlib.values_for import values_for
 from vlib import docs, findings, observe, runner
 from vlib import schemas as sg
 from vlib.jsonvals import canon
@@ -176,8 +177,32 @@ def predicate(case, stats):
         except Exception as exc:  # noqa: BLE001
             same = "raised " + type(exc).__name__
         if same is not True:
-            fails.append({"sub": "roundtrip", "kind": "element-parsed-from-J1-differs-from-the-element-J1-was-made-from",
-                          "detail": str(same), "first": repr(e1)[:300], "again": repr(e2)[:300], "J1": j1})
+            # `==` also tells `additionalItems=Nothing()` from `additionalItems=False` (one JSON value, two
+            # spellings inside the tree), so an inequality is only a lead: what counts is whether the two elements
+            # treat values differently (a dropped `required` does, a respelled `false` does not)
+            def spelled(el):
+                text = repr(el)
+                py = observe.ser_python(el)
+                if py[0] == "ok":
+                    text += "\n" + py[1]
+                return text.replace("additionalItems=Nothing()", "additionalItems=False").replace(
+                    "additionalProperties=Nothing()", "additionalProperties=False")
+
+            probes = list(case.get("values") or []) + [{}, [], None, "", 0, {"a": None}, [None]]
+            if spelled(e1) != spelled(e2):
+                # more than the respelling: some keyword value did not survive
+                fails.append({"sub": "roundtrip", "kind": "element-parsed-from-J1-differs-from-the-element-J1-was-made-from",
+                              "detail": "declarations differ", "first": spelled(e1)[:400], "again": spelled(e2)[:400], "J1": j1})
+                probes = []
+            for value in probes:
+                va, vb = observe.verdict(e1, value), observe.verdict(e2, value)
+                if va[0] != vb[0] or (va[0] == "ok" and not observe.plain_eq(observe.plain(va[1]), observe.plain(vb[1]))):
+                    fails.append({"sub": "roundtrip", "kind": "element-parsed-from-J1-differs-from-the-element-J1-was-made-from",
+                                  "detail": [str(va[0]), str(vb[0])], "value": value, "first": repr(e1)[:300],
+                                  "again": repr(e2)[:300], "J1": j1})
+                    break
+            else:
+                stats.classes["unequal-after-round-trip-but-same-behaviour"] += 1
     # generated python
     py = observe.ser_python(*elements1)
     from statham.serializers.orderer import get_children
@@ -236,7 +261,7 @@ def cases(draw):
     if draw(st.integers(0, 6)) == 0:
         return draw(title_collision_cases())
     schema = draw(sg.schemas(cfg()))
-    case = {"schema": schema}
+    case = {"schema": schema, "values": draw(values_for(schema, 3, 5))}
     if isinstance(schema, dict) and draw(st.integers(0, 3)) == 0:
         # a document with definitions: independent schemas, a structural twin of the root under another
         # title, and a user of the definitions (parse() returns root + definitions)
